@@ -195,7 +195,8 @@ def parse_msm(msg: object) -> tuple:
     :rtype: tuple
     """
 
-    if not msg.ismsm:
+    # NB: message numbers merely reserved for MSM have no payload definition
+    if not msg.ismsm or not hasattr(msg, "NSat"):
         return None
 
     meta = {}
